@@ -515,6 +515,8 @@ Fixpoint sort_v (v : jv) : jv :=
   | _ => v
   end.
 
+Definition sort_child (kv : bytes * jv) : bytes * jv := let (k, x) := kv in (k, sort_v x).
+
 Definition sort_if (sort_keys : bool) (v : jv) : jv := if sort_keys then sort_v v else v.
 
 Fixpoint nodup_bytes (l : list bytes) : bool :=
@@ -537,10 +539,17 @@ Fixpoint distinct_keys (v : jv) : bool :=
 
 Definition quote (raw : bytes) : bytes := c_quote :: raw ++ [c_quote].
 
-Fixpoint join_sep (sep : bytes) (parts : list bytes) : bytes :=
+Definition join_sep (sep : bytes) (parts : list bytes) : bytes :=
   match parts with
   | [] => []
-  | a :: r => match r with [] => a | _ :: _ => a ++ sep ++ join_sep sep r end
+  | a :: r => a ++ flat_map (fun b => sep ++ b) r
+  end.
+
+Fixpoint seq_opt (l : list (option bytes)) : option (list bytes) :=
+  match l with
+  | [] => Some []
+  | Some a :: r => match seq_opt r with Some b => Some (a :: b) | None => None end
+  | None :: _ => None
   end.
 
 (* appendPrettyObject with pretty=false, max <> -1: [1, 2, [3]]; any object makes it fail *)
@@ -553,15 +562,7 @@ Fixpoint oneline (v : jv) : option bytes :=
   | JStr raw => Some (quote raw)
   | JObj _ => None
   | JArr l =>
-      match (fix go (l : list jv) : option (list bytes) :=
-               match l with
-               | [] => Some []
-               | x :: r =>
-                   match oneline x, go r with
-                   | Some a, Some b => Some (a :: b)
-                   | _, _ => None
-                   end
-               end) l with
+      match seq_opt (map oneline l) with
       | Some parts => Some (c_lbrack :: join_sep (B ", ") parts ++ [c_rbrack])
       | None => None
       end
@@ -599,12 +600,8 @@ Fixpoint pretty_v (width : nat) (indent : bytes) (depth col : nat) (v : jv) {str
               let d := S depth in
               let ind := nl :: tabs indent d in
               c_lbrack :: ind ++ pretty_v width indent d (1 + d * length indent) x ++
-              (fix tl (r : list jv) : bytes :=
-                 match r with
-                 | [] => []
-                 | y :: r' =>
-                     c_comma :: ind ++ pretty_v width indent d (d * length indent) y ++ tl r'
-                 end) r ++
+              flat_map (fun y => c_comma :: ind ++
+                                 pretty_v width indent d (d * length indent) y) r ++
               nl :: tabs indent depth ++ [c_rbrack]
           end
       end
@@ -616,13 +613,10 @@ Fixpoint pretty_v (width : nat) (indent : bytes) (depth col : nat) (v : jv) {str
           let ind := nl :: tabs indent d in
           c_lbrace :: ind ++ quote k ++ B ": " ++
           pretty_v width indent d (1 + d * length indent + length k + 4) x ++
-          (fix tl (r : list (bytes * jv)) : bytes :=
-             match r with
-             | [] => []
-             | (k', y) :: r' =>
-                 c_comma :: ind ++ quote k' ++ B ": " ++
-                 pretty_v width indent d (1 + d * length indent + length k' + 4) y ++ tl r'
-             end) r ++
+          flat_map (fun kv : bytes * jv =>
+                      let (k', y) := kv in
+                      c_comma :: ind ++ quote k' ++ B ": " ++
+                      pretty_v width indent d (1 + d * length indent + length k' + 4) y) r ++
           nl :: tabs indent depth ++ [c_rbrace]
       end
   end.
